@@ -642,7 +642,8 @@ def gen_ref_program(rng, missing=False):
     prog = Prog()
     n = rng.choice([14, 20, 28])
     prog.nglyphs = n
-    kind = rng.choice(["plain", "dups", "dups", "fmt12", "symbol", "post"])
+    kind = rng.choice(["plain", "dups", "dups", "fmt12", "symbol", "post", "array4", "array4"])
+    holes = []
     glyphs = [{"name": ".notdef", "adv": 500, "contours": [ttf.square(50, 0, 450, 700)]},
               {"name": "space", "adv": 250, "contours": []}]
     base = 0xF061 if kind == "symbol" else 0x61
@@ -657,7 +658,14 @@ def gen_ref_program(rng, missing=False):
         for k in range(rng.randint(1, 3)):
             cmap[0x10300 + k] = rng.randint(2, n - 1) if rng.random() < 0.5 else 2 + k
     post_names = [None, "space"] + ["gl%d" % i for i in range(2, n)] if kind == "post" or rng.random() < 0.3 else None
-    prog.font = ttf.build_font(glyphs, cmap, cmap12=(kind == "fmt12"), symbol=(kind == "symbol"), post_names=post_names)
+    if kind == "array4":
+        # holes inside the mapped block; the cmap is written with glyphIdArray segments (entry 0 = not mapped) and a
+        # non-zero idDelta, so that a hole must not come out as glyph idDelta
+        holes = sorted(rng.sample(range(base + 3, base + n - 6), min(3, n - 10)))
+        for c in holes:
+            del cmap[c]
+    prog.font = ttf.build_font(glyphs, cmap, cmap12=(kind == "fmt12"), symbol=(kind == "symbol"), post_names=post_names,
+                               cmap4_arrays=(rng.choice([1, 2, 3]) if kind == "array4" else 0))
     prog.cmap = cmap
     prog.auto_pseudo = rng.random() < 0.8
     cps = sorted(cmap)
@@ -685,6 +693,8 @@ def gen_ref_program(rng, missing=False):
             elif form == "urange":
                 a = rng.choice([c for c in cps if base <= c < base + n - 4])
                 b = a + rng.randint(1, 3)
+                while any(c not in cmap for c in range(a, b + 1)) and b > a:
+                    b -= 1          # (holes of the cmap are the subject of the missing-glyph programs)
                 parts.append("unicode(0x%x..0x%x)" % (a, b))
                 rl.append({"k": "urange", "a": a, "b": b})
                 size += b - a + 1
@@ -725,7 +735,15 @@ def gen_ref_program(rng, missing=False):
     if missing:
         last = base + n - 3          # the last code point of the contiguous mapped block
         mv = rng.randrange(4)
-        if mv == 0:                  # one unmapped code point between two mapped ones
+        if kind == "array4" and rng.random() < 0.6:
+            # a range across a hole of the mapped block (the hole is an entry 0 of the cmap's glyphIdArray)
+            h = rng.choice(holes)
+            lo, hi = h - 1, h + 1
+            while hi not in cmap:
+                hi += 1
+            texts.append("cMiss = unicode(0x%x..0x%x);" % (lo, hi))
+            refs.append([{"k": "urange", "a": lo, "b": hi}])
+        elif mv == 0:                  # one unmapped code point between two mapped ones
             texts.append("cMiss = unicode(0x%x, 0x2345, 0x%x);" % (base, base + 1))
             refs.append([{"k": "unicode", "v": [base, 0x2345, base + 1]}])
         elif mv == 1:                # a run of adjacent unmapped code points in a list
